@@ -87,6 +87,13 @@ WBXML_DECLARE(WBXMLBuffer *) wbxml_buffer_create_real(const WB_UTINY *data, WB_U
             buffer->malloced = len + 1 + malloc_block;
         else
             buffer->malloced = malloc_block + 1;
+
+        /* Sizes are 32 bits wide: refuse a size that wrapped and cannot hold
+         * 'len' octets and the terminating NUL */
+        if (buffer->malloced <= len) {
+            wbxml_free(buffer);
+            return NULL;
+        }
         
         buffer->data = wbxml_malloc(buffer->malloced * sizeof(WB_UTINY));
         if (buffer->data == NULL) {
